@@ -1,5 +1,6 @@
 import FranzVerif.Model.Producer
 import FranzVerif.Proof.Producer
+import FranzVerif.Proof.ProducerFacts
 /-! C01 — every produced record's promise runs exactly once (theorems over *all* accepted histories
 of the producer monitor `Model.Producer`; the tie to the code is the history correspondence of
 `harness/cmd/sim01`: every history of the real client must be accepted). -/
@@ -10,13 +11,22 @@ open Model.Producer Proof.Producer
 each record id has at most one promise event. -/
 theorem promise_at_most_once (c : Cfg) (h : List Ev) (s : St) (hacc : run c {} h = some s) (id : Id) :
     (promisesOf id h).length ≤ 1 := by
-  sorry
+  have hi := inv_of_run hacc
+  cases hfd : find s.recs id with
+  | none => simp [(hi.recNone id hfd).promisesOf]
+  | some r =>
+    rw [(hi.recSome id r hfd).hprom]
+    cases r.promised <;> simp
 
 /-- (b) No promise is called for anything else: a promise event for `id` is always preceded by the
 call that produced `id`. -/
 theorem promise_only_for_produced (c : Cfg) (h₁ h₂ : List Ev) (id : Id) (e : Err)
     (hacc : (run c {} (h₁ ++ Ev.promise id e :: h₂)).isSome) : called id h₁ = true := by
-  sorry
+  obtain ⟨s₁, h1, hchk, _⟩ := run_split hacc
+  have hi := inv_of_run h1
+  cases hfd : find s₁.recs id with
+  | none => simp [check, hfd] at hchk
+  | some r => exact (hi.recSome id r hfd).hcalled
 
 /-- (c)+(d) Exactly once, eventually: if a history is accepted up to and including a quiescent
 point (nothing can run any more — with Close or without), then every produced record has had its
@@ -25,7 +35,22 @@ theorem quiescent_exactly_once (c : Cfg) (h : List Ev) (n b : Nat) (s : St)
     (hacc : run c {} (h ++ [Ev.quiesce n b]) = some s) :
     (∀ id, called id h = true → (promisesOf id h).length = 1) ∧ n = 0 ∧ b = 0 ∧
     (∀ k, Ev.flushStart k ∈ h → ∃ ok, Ev.flushEnd k ok ∈ h) := by
-  sorry
+  obtain ⟨s₁, h1, hchk⟩ := run_snoc hacc
+  have hi := inv_of_run h1
+  obtain ⟨hrecs, hfl, hn, hb, _, _⟩ := quiesce_check hchk
+  refine ⟨?_, hn, hb, ?_⟩
+  · intro id hc
+    cases hfd : find s₁.recs id with
+    | none => rw [(hi.recNone id hfd).called] at hc; cases hc
+    | some r =>
+      rw [(hi.recSome id r hfd).hprom]
+      have := (hrecs r (find_some hfd).1).1
+      obtain ⟨e, he⟩ := Option.isSome_iff_exists.1 this
+      simp [he]
+  · intro k hk
+    obtain ⟨f, hf, hfk⟩ := hi.flStart k hk
+    obtain ⟨ok, hok⟩ := hi.flDone f hf (hfl f hf)
+    exact ⟨ok, hfk ▸ hok⟩
 
 /-- Non-vacuity: a small concurrent history with a blocked producer, a failed TryProduce and a Flush is accepted. -/
 example : accepts { maxRecs := 1, maxBytes := 0, manual := false }
